@@ -114,8 +114,14 @@ func c10RecvLoop(c *Ctx, a *clientAnchors) {
 	// K7 buffer
 	bufArg := read.Call.Args[0]
 	mkI := freshBufferSite(bufArg)
-	r.Check(mkI != nil && loop[mkI.Block()], "C10-K7", key("read buffer allocated inside loop"), c.P.ipos(read), "MakeSlice on the loop cycle",
-		"the receive buffer is not allocated per datagram: a decoded message handed to a caller could be overwritten by the next read")
+	if mkI != nil && !loop[mkI.Block()] {
+		why := hoistedBufferSafe(c, read, dec, mkI)
+		r.Check(why == "", "C10-K7", key("read buffer allocated inside loop, or shared by nothing that outlives the iteration"), c.P.ipos(read), "E3: the decoder keeps no memory of its input; the buffer is only read into, decoded from, measured and copied from",
+			"the receive buffer is not allocated per datagram and "+why+": a decoded message handed to a caller could be overwritten by the next read")
+	} else {
+		r.Check(mkI != nil && loop[mkI.Block()], "C10-K7", key("read buffer allocated inside loop"), c.P.ipos(read), "MakeSlice on the loop cycle",
+			"the receive buffer is not allocated per datagram: a decoded message handed to a caller could be overwritten by the next read")
+	}
 	// the buffer holds a full-size datagram: its constant length is at least 1500 (an Ethernet-MTU reply; the
 	// DHCPv4 client announces exactly that in option 57), so no well-formed reply is truncated and dropped
 	if mkI != nil {
@@ -1483,4 +1489,91 @@ func c10SendViaRegister(c *Ctx, a *clientAnchors, write *ssa.Call, nWrite int, k
 	r.Check(instrDominates(call, write), "C10-K3", key("registration call precedes transmission"), c.P.ipos(write), "the helper call dominates WriteTo", "the datagram can be transmitted before the transaction is registered: a fast reply is dropped as unsolicited")
 	ls := a.lockFlow(fn)
 	r.Check(!ls.may[write], "C11-K5", key("transmission outside the lock"), c.P.ipos(write), "may-hold is false at WriteTo", "WriteTo is called while pendingMu may be held")
+}
+
+// hoistedBufferSafe: a receive buffer allocated once, before the read loop, is as good as one allocated per datagram
+// when nothing keeps a reference into it: the value handed to ReadFrom is the whole buffer itself (no narrowing φ), the
+// only other uses of the buffer are re-slices handed to the decoder `dec` — which E3 proves to keep no memory of its
+// input — or used as the source of copy / the operand of len and cap, and the buffer is never stored, sent, returned,
+// captured or boxed. Returns "" when safe, else the reason.
+func hoistedBufferSafe(c *Ctx, read, dec *ssa.Call, site ssa.Instruction) string {
+	if site == nil || dec == nil || dec.Call.StaticCallee() == nil {
+		return "no allocation site / decoder"
+	}
+	if !(site.Block() == read.Block() || site.Block().Dominates(read.Block())) {
+		return "the allocation does not dominate the read"
+	}
+	// the decoder keeps nothing of its input
+	for _, x := range getE3(c).retentionFindings(dec.Call.StaticCallee(), 0) {
+		return "the decoder keeps memory of its input (" + x.short + ")"
+	}
+	// the buffer values: the allocation and its whole-buffer re-slices
+	var whole func(v ssa.Value) bool
+	whole = func(v ssa.Value) bool {
+		switch x := v.(type) {
+		case *ssa.MakeSlice:
+			return ssa.Instruction(x) == site
+		case *ssa.Alloc:
+			return ssa.Instruction(x) == site
+		case *ssa.Slice:
+			return x.Low == nil && x.Max == nil && fullHigh(x) && whole(x.X)
+		}
+		return false
+	}
+	if !whole(read.Call.Args[0]) {
+		return "the slice handed to ReadFrom is not the whole buffer (it may have been narrowed by an earlier iteration)"
+	}
+	reason := ""
+	var uses func(v ssa.Value, isWhole bool, d int)
+	uses = func(v ssa.Value, isWhole bool, d int) {
+		if d > 4 || v.Referrers() == nil {
+			return
+		}
+		for _, ref := range *v.Referrers() {
+			switch u := ref.(type) {
+			case *ssa.DebugRef:
+			case *ssa.Slice:
+				if u.X == v {
+					uses(u, isWhole && u.Low == nil && fullHigh(u) && u.Max == nil, d+1)
+				}
+			case *ssa.Call:
+				cc := u.Common()
+				switch {
+				case u == read:
+				case u == dec:
+				case isBuiltinCall(cc, "len"), isBuiltinCall(cc, "cap"):
+				case isBuiltinCall(cc, "copy") && len(cc.Args) == 2 && cc.Args[1] == v && cc.Args[0] != v:
+				default:
+					if reason == "" {
+						reason = "the buffer is handed to " + u.String()
+					}
+				}
+			default:
+				if reason == "" {
+					reason = "the buffer is used by " + ref.String()
+				}
+			}
+		}
+	}
+	uses(site.(ssa.Value), true, 0)
+	return reason
+}
+
+
+// fullHigh: the upper bound of the slice expression is absent or the constant length of the sliced array
+// (make([]byte, K) compiles to new [K]byte followed by [:K])
+func fullHigh(x *ssa.Slice) bool {
+	if x.High == nil {
+		return true
+	}
+	k, ok := intConst(x.High)
+	if !ok {
+		return false
+	}
+	if pt, isP := x.X.Type().Underlying().(*types.Pointer); isP {
+		if at, isA := pt.Elem().Underlying().(*types.Array); isA {
+			return at.Len() == k
+		}
+	}
+	return false
 }
